@@ -591,6 +591,10 @@ def grammar_program(rng, idx):
                                  ["call", "member", [var(c), ["list", [["num", 1], ["num", 2]]]]],
                                  ["conde", [[["eq", var(c), ["num", 1]]], [["eq", var(c), ["list", [["num", 2]]]]]]]])
                      for _ in range(rng.randint(1, 2))]
+            # a closure body of several goals is written as ONE bracketed clause (`closure { g1, g2 }` does not
+            # parse, DESIGN 8): the case says so, and every backend and the specification build the same goal
+            if len(inner) > 1:
+                inner = [["conj", inner]]
             return ["fresh", [c], [["eq", var(c), term_(vars_, 1)], ["closure", inner]]]
         if r < 0.96:
             lg = lib_goal(rng, TermGen(rng, vars_, compounds=False, syms=False, nums=[1, 2, 3]))
